@@ -63,7 +63,7 @@ Theorem C20_write_progress : forall c n ws,
   c_tcp c = true -> owf c -> c_connected c = true -> c_tfo_initial c = false -> 0 < n ->
   exists c' st evs ws', conn_flush c (Cap n :: ws) = Ok (c', st, evs, ws') /\ st = ARES_SUCCESS /\
     length (remaining (c_out c')) = (length (remaining (c_out c)) - Z.to_nat n)%nat /\
-    c_rw c' = want_flags false true (remaining (c_out c')).
+    c_rw c' = want_flags false (remaining (c_out c')).
 Proof. exact write_progress. Qed.
 Print Assumptions C20_write_progress.
 
